@@ -300,18 +300,19 @@ def battery():
     from moptipyapps.dynamic_control.instance import Instance
     from moptipyapps.dynamic_control.objective import FigureOfMerit, FigureOfMeritLE
     from moptipyapps.dynamic_control.system import System
-    base = make_stuart_landau(2)
+    from moptipyapps.dynamic_control.systems.stuart_landau import STUART_LANDAU_4 as base
+    # the four-training-case system with a shortened simulation (30 steps over 3 time units) and its real equations
     sysm = System(base.name, base.state_dims, base.control_dims, base.state_dim_mod, base.state_dims_in_j, base.gamma,
-                  base.test_starting_states[:1], base.training_starting_states[:3], 20, 2.0, 20, 2.0) \
-        if False else base
-    # shrink the workload: few training cases and steps
-    object.__setattr__(sysm, "training_starting_states", base.training_starting_states[:3])
-    object.__setattr__(sysm, "training_steps", 30)
-    object.__setattr__(sysm, "training_time", 3.0)
+                  base.test_starting_states, base.training_starting_states, 30, 3.0, 30, 3.0, base.plot_examples)
+    sysm.equations = base.equations
     ctrl = linear(sysm)
     inst = Instance(sysm, ctrl)
     probs = []
-    xs = [np.array([0.1, -0.2]), np.array([-1.0, 0.5]), np.array([1e200, 1e200]), np.array([0.0, 0.0])]
+    # well-behaved vectors, vectors whose simulation fails at a training case with a finite state (control >= 1e10:
+    # j_from_ode gives exactly 1e200) and one that overflows to inf/nan
+    xs = [np.array([0.1, -0.2]), np.array([-1.0, 0.5]), np.array([1e200, 1e200]), np.array([0.0, 0.0]),
+          np.array([1e13, 1e13]), np.array([-1e13, 1e13])]
+    refs = {}
 
     def model_eq(state, t, control, out):
         out[0] = -state[0]
@@ -319,6 +320,7 @@ def battery():
     for cls in (FigureOfMerit, FigureOfMeritLE):
         fresh = lambda: cls(inst, True)
         ref = [fresh().evaluate(x) for x in xs]
+        refs[cls.__name__] = ref
         for i, v in enumerate(ref):
             if not (v == 1e200 or 0 <= v <= 1e100):
                 probs.append(f"{cls.__name__}: value {v} outside [0,1e100] u {{1e200}}")
@@ -353,6 +355,12 @@ def battery():
             probs.append(f"{cls.__name__}: set_model accepted without model-mode support")
         except ValueError:
             pass
+    # both aggregations are bounded by the largest per-case value, so either variant yields the failure value exactly
+    # when some training case leaves [0, 1e100]
+    for i, x in enumerate(xs):
+        a, b = refs["FigureOfMerit"][i], refs["FigureOfMeritLE"][i]
+        if (a == 1e200) != (b == 1e200):
+            probs.append(f"x={x.tolist()}: FigureOfMerit gives {a} but FigureOfMeritLE gives {b}: the failure value must be reported by both or by neither")
     return bool(probs), dict(problems=probs[:4])
 
 
